@@ -155,7 +155,7 @@ pub fn find(cache: &Path, key: &str) -> Result<Option<Metadata>> {
             if entry.key == key {
                 if let Some(integrity) = entry.integrity {
                     let integrity: Integrity = match integrity.parse() {
-                        Ok(sri) => sri,
+                        Ok(sri) if addressable(&sri) => sri,
                         _ => return acc,
                     };
                     Some(Metadata {
@@ -187,7 +187,7 @@ pub async fn find_async(cache: &Path, key: &str) -> Result<Option<Metadata>> {
             if entry.key == key {
                 if let Some(integrity) = entry.integrity {
                     let integrity: Integrity = match integrity.parse() {
-                        Ok(sri) => sri,
+                        Ok(sri) if addressable(&sri) => sri,
                         _ => return acc,
                     };
                     Some(Metadata {
@@ -275,9 +275,10 @@ pub fn ls(cache: &Path) -> impl Iterator<Item = Result<Metadata>> {
                 .rev()
                 // `find` ignores records whose integrity does not parse; so must we.
                 .filter(|se| {
-                    se.integrity
-                        .as_ref()
-                        .map_or(true, |i| i.parse::<Integrity>().is_ok())
+                    se.integrity.as_ref().map_or(true, |i| {
+                        i.parse::<Integrity>()
+                            .map_or(false, |sri| addressable(&sri))
+                    })
                 })
                 .collect::<HashSet<SerializableMetadata>>()
                 .into_iter()
@@ -301,6 +302,42 @@ pub fn ls(cache: &Path) -> impl Iterator<Item = Result<Metadata>> {
             Ok(it) => Left(it.into_iter().map(Ok)),
             Err(err) => Right(std::iter::once(Err(err))),
         })
+}
+
+/// Content paths are derived from the first hash of an integrity value, which must be
+/// canonical base64 of at least two bytes (`Integrity::to_hex` panics otherwise). An
+/// index record whose integrity is anything else is damaged, and is skipped like any
+/// other damaged record.
+fn addressable(sri: &Integrity) -> bool {
+    fn sextet(c: u8) -> Option<u8> {
+        match c {
+            b'A'..=b'Z' => Some(c - b'A'),
+            b'a'..=b'z' => Some(c - b'a' + 26),
+            b'0'..=b'9' => Some(c - b'0' + 52),
+            b'+' => Some(62),
+            b'/' => Some(63),
+            _ => None,
+        }
+    }
+    let digest = match sri.hashes.first() {
+        Some(hash) => hash.digest.as_bytes(),
+        None => return false,
+    };
+    let pad = digest.iter().rev().take_while(|&&c| c == b'=').count();
+    if digest.len() % 4 != 0 || pad > 2 || digest.len() / 4 * 3 < pad + 2 {
+        return false;
+    }
+    let body = &digest[..digest.len() - pad];
+    if !body.iter().all(|&c| sextet(c).is_some()) {
+        return false;
+    }
+    // The bits of the last symbol that do not belong to a whole byte must be zero.
+    let last = sextet(body[body.len() - 1]).unwrap_or(0);
+    match pad {
+        1 => last & 0b11 == 0,
+        2 => last & 0b1111 == 0,
+        _ => true,
+    }
 }
 
 fn bucket_path(cache: &Path, key: &str) -> PathBuf {
